@@ -326,7 +326,7 @@ func (h *c17H) generate() error {
 
 	// 1. small stores, every scenario
 	nFull := c.Pick(2, 6)
-	nPart := c.Pick(8, 36)
+	nPart := c.Pick(6, 36)
 	kinds := []string{"mixed", "reorg", "mixed", "plain", "shuffled"}
 	for i := 0; i < nFull+nPart; i++ {
 		if h.leaks > 14000 {
@@ -382,7 +382,7 @@ func (h *c17H) generate() error {
 		{"Asia/Kolkata", "Europe/Warsaw", "UTC"}, {"America/New_York", "Asia/Kolkata", "Europe/Warsaw"}, {"UTC", "UTC", "UTC"},
 		{"Europe/Warsaw", "Europe/Warsaw", "Europe/Warsaw"}, {"UTC", "Asia/Kolkata", "America/New_York"},
 	}
-	nz := c.Pick(6, len(zoneSets)*3)
+	nz := c.Pick(4, len(zoneSets)*3)
 	for zi := 0; zi < nz; zi++ {
 		zs := zoneSets[zi%len(zoneSets)]
 		base := []int64{1635634800, 1636264800, 1616893200, 1231006505}[(zi/2)%4]
